@@ -24,7 +24,7 @@ open PV
 /-- declared constants: the wrap is into the half-open unit cell `[-1/2, 1/2)` -/
 theorem declared_wrap_constants :
     Generated.wrapPeriod = .lit 1 1 ∧ Generated.wrapOffset = .neg (.lit 1 2) ∧
-    Generated.boundsUnrecognised = [] := by
+    Generated.wrapUnrecognised = [] := by
   decide
 
 /-- the wrap the site uses -/
